@@ -649,3 +649,16 @@ M('C20', 'merge-inputs-cached-across-requests', SRV, "            arg = self.par
   "            cache = self.settings.setdefault('mergetool_notebooks', {})\n            if argname not in cache:\n                cache[argname] = self.read_notebook(self.params['mergetool_args'][argname], fail_on_empty=False)\n            return cache[argname]", 'R20.9')
 M('C20', 'server-whitespace-garbage-treated-as-empty', SRV, "                            if len(fo.read(10)) != 0:\n                                raise", "                            if fo.read(10).strip():\n                                raise", 'R20.10')
 T('C20', 'twin-server-emptiness-by-comparison', SRV, "                            if len(fo.read(10)) != 0:\n                                raise", "                            if len(fo.read(10)) > 0:\n                                raise")
+
+# ------------------------------------------------------------------------------------------ C06 (pipeline shape of disjoint merges)
+M('C06', 'combine-patches-groups-before-sort', STR, "    patches = {}\n    newdiffs = []\n    for d in diffs:\n        if d.op == DiffOp.PATCH:",
+  "    patches = {}\n    newdiffs = []\n    newdiffs.extend(d for d in diffs if d.op == DiffOp.REMOVERANGE)\n    diffs = [d for d in diffs if d.op != DiffOp.REMOVERANGE]\n    for d in diffs:\n        if d.op == DiffOp.PATCH:", 'R09.8')
+M('C06', 'side-skipped-when-equal-to-base', MNB, "    remote_diffs = diff_notebooks(base, remote)\n", "    remote_diffs = diff_notebooks(base, remote) if remote != base else []\n", 'R09.9')
+M('C06', 'onesided-defaults-to-conflict', DEC, '    def onesided(self, path, local_diff, remote_diff, conflict=False):', '    def onesided(self, path, local_diff, remote_diff, conflict=True):', 'R05.1')
+M('C06', 'onesided-arm-consults-strategy', MG,
+  '        elif not (bool(d0) and bool(d1)):\n            decisions.onesided(path, d0, d1)',
+  '        elif not (bool(d0) and bool(d1)):\n            if list_strategy == "use-base":\n                decisions.base(path, d0, d1)\n            else:\n                decisions.onesided(path, d0, d1)', 'R05.1')
+M('C06', 'list-resolver-loses-entry-guard', STR,
+  'def resolve_conflicted_decisions_list(path, base, decisions, strategy):\n    if not (strategy and strategy != "mergetool" and decisions.has_conflicted()):\n        return\n',
+  'def resolve_conflicted_decisions_list(path, base, decisions, strategy):\n    if not (strategy and strategy != "mergetool"):\n        return\n', 'R05.2')
+T('C06', 'twin-combine-patches-sort-in-place', STR, "    return sorted(newdiffs, key=lambda x: x.key)", "    newdiffs.sort(key=lambda x: x.key)\n    return newdiffs")
